@@ -217,6 +217,8 @@ def _ensure_object_loader(context, saved_state):
                                        and ret.loader is attr(calls()[len(calls()) - 1], 'result')))
     ensures('default_last', implies(not has_ctx and not recorded, ret.loader is ghost_const('default_loader')))
     ensures('no_user_code_otherwise', implies(has_ctx or not recorded, len(calls()) == old(len(calls()))))
+    ensures('values_kept', implies(context is not None, wf_lsc(ret) and forall(lambda k: dhas(ret._values, k) == old(dhas(context._values, k))
+                                                                           and implies(dhas(ret._values, k), dget(ret._values, k) is old(dget(context._values, k))))))
     ensures('is_context', isinstance(ret, LoadSaveContext) and ret.loader is not None or has_ctx or recorded)
     raises(ValueError, True)
     raises(Exception, not has_ctx and recorded)
@@ -447,3 +449,21 @@ def _get_value(self, saved_state, name, load_context):
     raises(Exception, marked and (typ == 'm' or typ == 'S'))
     replay('plain_value', 'savable_members')
     replay('nested_savable', 'savable_members')
+
+
+@contract('plumpy.persistence.LoadSaveContext.__getattr__', props=['C19', 'C07'])
+def lsc_getattr(self, item):
+    """values given to the context are read back as attributes; anything else is an AttributeError"""
+    requires(wf_lsc(self) and is_str(item))
+    modifies()
+    ensures('reads_the_value', dhas(self._values, item) and ret is dget(self._values, item))
+    raises(AttributeError, not dhas(self._values, item))
+
+
+@contract('plumpy.persistence.Savable._ensure_persist_configured', assumed=True)
+def _ensure_persist_configured(self):
+    """ASSUMED: the `persist()` hook is the default no-op (classes of the class table do not override it: checked by the scan
+    `persist_hook_not_overridden`); the flag is set"""
+    modifies(self._persist_configured)
+    raises_nothing()
+    ensures(self._persist_configured is True)
